@@ -15,6 +15,8 @@
 (*   Fault(c)         call c raises OSError (handlers run); one faulty call   *)
 (*                    site per behaviour (it may fail again when re-issued)    *)
 (*   FormatterRaises  an exception inside the with-block                      *)
+(*   Interrupt(c) / BodyInterrupted   a BaseException that is not an Exception *)
+(*                    (KeyboardInterrupt, SystemExit) at call c / in the body  *)
 (*                                                                            *)
 (* A *configuration* says how the commit and the error handling are written.  *)
 (* "before" = cogent3 before the C19 repairs (/repo 3146aabd5, 846586424,     *)
@@ -56,7 +58,7 @@ Hows       == {"running", "ok", "failed", "crashed"}
 PCs        == {"mkdtemp", "open", "block", "blockclosed", "close", "commit", "rename", "rmtree",
                "h_unlink", "e_close", "e_rmtree", "zstore", "zstoring", "done"}
 
-Cfg(n, c, cl, w) == [name |-> n, commit |-> c, cleanup |-> cl, wunlink |-> w, closeerr |-> "raise"]
+Cfg(n, c, cl, w) == [name |-> n, commit |-> c, cleanup |-> cl, wunlink |-> w, closeerr |-> "raise", oninterrupt |-> "abort"]
 
 (* the transcribed current code, one configuration per way atomic_write is used *)
 CfgSeqFmt == Cfg("seqfmt", "replace", "always", FALSE)   \* format/alignment.save_to_filename (closes the file inside the block)
@@ -81,8 +83,13 @@ CfgSwallowClose == [Cfg("swallow_close", "replace", "always", FALSE) EXCEPT !.cl
 (* path would do if atomic_write treated such a path as in_zip.  Atomic rejects it: a second write leaves the old   *)
 (* and the new member, a failure or kill while storing leaves a damaged archive.                                    *)
 CfgZipAppend == Cfg("zip_append", "zip_append", "always", FALSE)
+(* the body of the with-block can end in four ways: normally, by an Exception, by an INTERRUPT (a BaseException that  *)
+(* is not an Exception: KeyboardInterrupt from SIGINT, SystemExit, GeneratorExit) or by a kill.  An interrupt must be   *)
+(* handled exactly like an Exception.  This configuration tests isinstance(exc, Exception) in __exit__ and therefore    *)
+(* commits the incomplete staged file when the body was interrupted (the interrupt still propagates).  Rejected.        *)
+CfgCommitOnInterrupt == [Cfg("commit_on_interrupt", "replace", "always", FALSE) EXCEPT !.oninterrupt = "commit"]
 (* every configuration below violates Atomic; MC_AtomicWrite_cx.cfg checks that each one is rejected *)
-RejectedConfigs == HistoricConfigs \cup {CfgReplaceOnly, CfgGuardOnly, CfgSwallowClose, CfgZipAppend}
+RejectedConfigs == HistoricConfigs \cup {CfgReplaceOnly, CfgGuardOnly, CfgSwallowClose, CfgZipAppend, CfgCommitOnInterrupt}
 AllConfigs == CurrentConfigs \cup RejectedConfigs
 
 TypeOK == /\ cfg \in AllConfigs
@@ -92,8 +99,9 @@ TypeOK == /\ cfg \in AllConfigs
           /\ pc \in PCs
           /\ how \in Hows
           /\ fcall \in Calls \cup {"none"}
-          /\ exc \in BOOLEAN
+          /\ exc \in {"no", "yes", "ignored"}   \* an exception is in flight; "ignored" = an interrupt the code took for success
           /\ cfg.closeerr \in {"raise", "swallow"}
+          /\ cfg.oninterrupt \in {"abort", "commit"}
 
 ------------------------------------------------------------------------------
 (* THE PROPERTY.  p = destination before the call, h = how the call ended,    *)
@@ -128,7 +136,7 @@ Init == /\ cfg \in Configs
         /\ pc = "mkdtemp"
         /\ how = "running"
         /\ fcall = "none"
-        /\ exc = FALSE
+        /\ exc = "no"
 
 Running == how = "running"
 Goto(p) == pc' = p /\ UNCHANGED <<cfg, pre, how, fcall, exc>>
@@ -159,7 +167,8 @@ WriteT    == Running /\ pc = "block" /\ UNCHANGED <<dest, tmp>> /\ Goto("block")
 BlockCloseT == Running /\ pc = "block" /\ tmp' = "New" /\ UNCHANGED dest /\ Goto("blockclosed")
 (* no file-system call: the with-block is left normally *)
 BlockEndT == Running /\ pc \in {"block", "blockclosed"} /\ UNCHANGED <<dest, tmp>> /\ Goto("close")
-CloseT    == Running /\ pc = "close" /\ tmp' = "New" /\ UNCHANGED dest /\ Goto("commit")
+CloseT    == /\ Running /\ pc = "close" /\ UNCHANGED dest /\ Goto("commit")
+             /\ tmp' = (IF exc = "ignored" THEN tmp ELSE "New")   \* an interrupted body did not produce all the content
 UnlinkDestT == /\ Running /\ pc = "commit" /\ cfg.commit = "unlink_rename"
                /\ dest' = "absent" /\ UNCHANGED tmp /\ Goto("rename")
 (* os.rename / os.replace: the staged file becomes the destination in one step *)
@@ -167,7 +176,7 @@ RenameT   == /\ Running
              /\ \/ pc = "rename"
                 \/ pc = "commit" /\ cfg.commit = "replace"
              /\ dest' = tmp /\ tmp' = "empty"
-             /\ IF exc   \* the rename ran in the `finally` of a failed unlink: the OSError now propagates
+             /\ IF exc = "yes"   \* the rename ran in the `finally` of a failed unlink: the OSError now propagates
                    THEN /\ Fail /\ UNCHANGED <<cfg, pre, fcall, exc>>
                    ELSE Goto("rmtree")
 (* commit "zip_append" (atomic_write(..., in_zip=...)._close_rename_zip): the member is staged as a plain file and  *)
@@ -180,14 +189,15 @@ StoreBeginT == /\ Running /\ pc = "zstore" /\ dest' = "Partial" /\ UNCHANGED tmp
 StoreEndT == /\ Running /\ pc = "zstoring"
              /\ dest' = (IF pre = "Old" THEN "OldNew" ELSE "New") /\ UNCHANGED tmp /\ Goto("rmtree")
 RmtreeT   == /\ Running /\ pc = "rmtree" /\ tmp' = "absent" /\ UNCHANGED dest
-             /\ pc' = "done" /\ how' = "ok" /\ UNCHANGED <<cfg, pre, fcall, exc>>
+             /\ pc' = "done" /\ how' = (IF exc = "ignored" THEN "failed" ELSE "ok")   \* the interrupt reaches the caller
+             /\ UNCHANGED <<cfg, pre, fcall, exc>>
 
 (* ---- exception inside the with-block -------------------------------------- *)
 BlockHandler == IF cfg.cleanup = "never" THEN "done"
                 ELSE IF cfg.wunlink THEN "h_unlink" ELSE "e_close"
 EnterHandler == /\ pc' = BlockHandler
                 /\ how' = IF BlockHandler = "done" THEN "failed" ELSE how
-                /\ exc' = TRUE
+                /\ exc' = "yes"
 (* without a with-block the staged file is opened lazily at the first write, so formatting can fail before open *)
 RaisePoints == {"block", "blockclosed"} \cup (IF cfg.cleanup = "never" THEN {"open"} ELSE {})
 FormatterRaisesT == /\ Running /\ pc \in RaisePoints
@@ -199,7 +209,7 @@ ERmtreeT == /\ Running /\ pc = "e_rmtree" /\ tmp' = "absent" /\ UNCHANGED dest
             /\ Fail /\ UNCHANGED <<cfg, pre, fcall, exc>>
 
 (* ---- a call raises OSError ------------------------------------------------- *)
-ToCleanup == pc' = "e_rmtree" /\ exc' = TRUE /\ UNCHANGED how
+ToCleanup == pc' = "e_rmtree" /\ exc' = "yes" /\ UNCHANGED how
 Propagate == Fail /\ UNCHANGED exc
 FaultT(c) ==
     /\ Running /\ c \in NextCall(pc)
@@ -217,13 +227,30 @@ FaultT(c) ==
          [] pc = "commit" /\ c = "unlink_dest" ->
                 /\ UNCHANGED tmp
                 /\ IF cfg.cleanup = "always" THEN ToCleanup
-                   ELSE pc' = "rename" /\ exc' = TRUE /\ UNCHANGED how      \* finally: src.rename(dest)
+                   ELSE pc' = "rename" /\ exc' = "yes" /\ UNCHANGED how      \* finally: src.rename(dest)
          [] pc = "h_unlink" -> pc' = "e_close" /\ UNCHANGED <<tmp, how, exc>>  \* except Exception: pass
          [] c = "rename"   -> (IF cfg.cleanup = "always" THEN ToCleanup ELSE Propagate) /\ UNCHANGED tmp
          [] c \in {"open_dest", "store"} ->   \* the archive keeps whatever the in-place append had done to it
                 (IF cfg.cleanup = "always" THEN ToCleanup ELSE Propagate) /\ UNCHANGED tmp
          [] c = "rmtree"   -> Propagate /\ tmp' \in {tmp, "empty"}          \* rmtree may have removed the file already
          [] OTHER          -> FALSE
+
+(* ---- an interrupt (BaseException that is not an Exception) is raised ------------------------- *)
+(* at call c (the signal is delivered just before / in it), or inside the body between two calls.  *)
+(* It is handled like the OSError / the formatter's exception, unless the configuration mistakes   *)
+(* an interrupted body for a finished one.                                                         *)
+MistakenForSuccess == cfg.oninterrupt = "commit" /\ pc \in {"block", "blockclosed"}
+InterruptT(c) ==
+    IF MistakenForSuccess
+      THEN /\ Running /\ fcall \in {"none", c} /\ c \in NextCall(pc)
+           /\ fcall' = c /\ exc' = "ignored" /\ pc' = "close"
+           /\ UNCHANGED <<cfg, pre, dest, tmp, how>>
+      ELSE FaultT(c)
+BodyInterruptedT ==
+    IF MistakenForSuccess
+      THEN /\ Running /\ exc' = "ignored" /\ pc' = "close"
+           /\ UNCHANGED <<cfg, pre, dest, tmp, how, fcall>>
+      ELSE FormatterRaisesT
 
 (* ---- the process dies ------------------------------------------------------- *)
 CrashT == /\ Running
@@ -247,6 +274,8 @@ HUnlink == HUnlinkT /\ Log("unlink_dest", <<"handler">>)
 EClose == ECloseT /\ Log("close", <<"handler">>)
 ERmtree == ERmtreeT /\ Log("rmtree", <<"handler">>)
 Fault(c) == FaultT(c) /\ Log("Fault", <<c, pc>>)
+Interrupt(c) == InterruptT(c) /\ Log("Interrupt", <<c, pc>>)
+BodyInterrupted == BodyInterruptedT /\ Log("BodyInterrupted", <<>>)
 Crash == CrashT /\ Log("Crash", <<pc>>)
 
 CallT(c) ==
@@ -260,12 +289,13 @@ CallT(c) ==
       [] c = "open_dest"   -> OpenDestT
       [] c = "store"       -> StoreBeginT
       [] OTHER             -> FALSE
-SilentT == BlockEndT \/ FormatterRaisesT \/ StoreEndT
+SilentT == BlockEndT \/ FormatterRaisesT \/ BodyInterruptedT \/ StoreEndT
 
 Next == \/ Mkdtemp \/ OpenTmp \/ Write \/ BlockClose \/ BlockEnd \/ Close
         \/ UnlinkDest \/ Rename \/ Rmtree \/ OpenDest \/ StoreBegin \/ StoreEnd
         \/ FormatterRaises \/ HUnlink \/ EClose \/ ERmtree
-        \/ \E c \in Calls : Fault(c)
+        \/ \E c \in Calls : Fault(c) \/ Interrupt(c)
+        \/ BodyInterrupted
         \/ Crash
 
 Spec == Init /\ [][Next]_vars
@@ -282,7 +312,7 @@ FairSpec == Spec /\ WF_vars(Mkdtemp \/ OpenTmp \/ BlockEnd \/ Close \/ UnlinkDes
 CloseFails == Fault("close")
 CloseFailureIsAFailure == (fcall = "close" /\ pc = "done") => (how \in {"failed", "crashed"} /\ dest = pre)
 
-HappyPathSucceeds == [](pc = "done" /\ fcall = "none" /\ how # "crashed" /\ ~exc => how = "ok")
+HappyPathSucceeds == [](pc = "done" /\ fcall = "none" /\ how # "crashed" /\ exc = "no" => how = "ok")
 
 ------------------------------------------------------------------------------
 (* The verdict table: OutcomeOK over its whole domain, emitted once so that   *)
